@@ -510,7 +510,7 @@ InSig(ver, ac, f, rel) ==
 
 \* -- theorems over one shape ------------------------------------------------------------------
 AllInstances(sh, cs) == Instances(sh) \cup (IF cs.kind = "transparent" THEN { << "hash_type", 0 >> } ELSE { })
-                                      \cup (IF cs.kind = "transparent" /\ ~V5Plus(sh.ver) THEN { << "script_code", 0 >> } ELSE { })
+                                      \cup (IF cs.kind = "transparent" THEN { << "script_code", 0 >> } ELSE { })
 
 TreeEqualsRuleT(sh, txl, aul) ==
     /\ \A fi \in Instances(sh) : (fi \in txl) = InTxid(sh.ver, fi[1])
@@ -610,7 +610,7 @@ Table ==
                                    rel \in { r \in RelsOf(ac, f) : RowPossible(ver, ac, f, r) } } : f \in ClassesOf(ver) }
                          \cup (IF ac.kind = "transparent"
                                THEN { [ver |-> ver, dig |-> "sig", ac |-> ac, f |-> p, rel |-> "na", out |-> Yes(InSig(ver, ac, p, "na"))] :
-                                      p \in (IF V5Plus(ver) THEN { "hash_type" } ELSE Params) }
+                                      p \in Params }
                                ELSE { }) : ac \in ACases(ver) }
           : ver \in Versions }
 
